@@ -9,11 +9,15 @@ CLAIMED = {
             "(2) _expand_deltas_for_merge: for EVERY configuration of the union the result carries the operand's fluctuation on that configuration "
             "number times len(union)/len(own) times the scale factor, and zero where the operand was not measured; (3) the missing-replica scale "
             "factor closure of derived_observable on enumerated chain layouts (ensembles grouped by the text before '|'); (4) for each of the 70 "
-            "man_grad entries and value lambdas of Obs / CObs: man_grad[i] == d(lambda)/dx_i by symbolic differentiation + z3 over the reals.",
+            "man_grad entries and value lambdas of Obs / CObs: man_grad[i] == d(lambda)/dx_i by symbolic differentiation + z3 over the reals; "
+            "(5) derived_observable (scalar mode) as three statement slices on enumerated operand layouts (1 or 2 operands; same chain, "
+            "range/list mixes, operand lacking a replica, two ensembles): central value = f(values), replica means = f(replica means), result "
+            "lists = union; the accumulation loop: for EVERY configuration of the union the result's fluctuation is the sum over the inputs of "
+            "deriv[j] x (input's fluctuation on that configuration number, zero if not measured) x union/own x missing-replica factor; result assembly.",
             "DESIGN.md section 6 C01",
-            "NOT decided by this check: the accumulation loop and result assembly of derived_observable (sum over inputs, covobs gradients, "
-            "array_mode), CObs operators as a whole, independence of how an expression is split, autograd / num_grad exactness. Derivative rule "
-            "table is part of the trusted base; transcendental functions are uninterpreted."),
+            "NOT decided by this check: the code between the slices (choice of man_grad / autograd / num_grad, final_result plumbing), more than "
+            "two operands, covobs gradients, array_mode, CObs operators as a whole, independence of how an expression is split (composition "
+            "lemma), autograd / num_grad exactness. Derivative rule table is part of the trusted base; transcendental functions uninterpreted."),
     "C02": ("symbolic execution of the Gamma-method building blocks (functions and statement slices of gamma_method) with loop invariants; z3 + cvc5; ACORR as a shared uninterpreted sum",
             "Proof of the parts of Wolff's estimator that are index / window logic in pyerrors: _expand_deltas (zero filling on the lattice of "
             "the common spacing, for every configuration), _determine_gap (minimal spacing), _calc_gamma (Gamma(t) = sum of products t steps "
@@ -33,8 +37,10 @@ CLAIMED = {
             "slices write only the result attributes of the analysis (frame: value, deltas, idl, names, r_values, shape are frozen); "
             "(4) _parse_kwarg: explicit argument over per-ensemble dictionary over global default, negative values rejected.",
             "DESIGN.md section 6 C03",
+            "(5) frame.read: the three derived_observable slices read only data attributes of their inputs (names, idl, deltas, r_values, shape, value, "
+            "covobs, reweighted), never a result of an earlier analysis. "
             "NOT decided: invariance under adding a constant / scaling with |c|, tau_int >= 1/2 and finiteness, reset of all cached dictionaries "
-            "at entry (history independence), replica renaming / reordering, that derived_observable never reads analysis results."),
+            "at entry (history independence), replica renaming / reordering."),
     "C04": ("symbolic execution of Obs.__init__ over enumerated name lists (well-formed and malformed) with symbolic samples and configuration lists",
             "Proof for the constructor: every malformed request listed in the property (duplicate / non-string names, unsorted or duplicate "
             "configuration numbers, length mismatches, fewer than five samples, several ensembles, wrong idl type) raises exactly the stated "
@@ -42,7 +48,8 @@ CLAIMED = {
             "names, idl equal to the given numbers and held as a range exactly when equally spaced (induction ghost), shape == len(idl) == "
             "len(deltas), r_values / deltas / value as defined, N == sum of the chain lengths.",
             "DESIGN.md section 6 C04",
-            "NOT decided by this check: preservation of well-formedness by derived_observable / fits / roots / importers / readers, closure of "
+            "Also proved: the result assembly of derived_observable (scalar mode) and import_jackknife construct through Obs.__init__(means=...) "
+            "and return a well-formed object (names, idl kinds, lengths, N, flag). NOT decided by this check: fits / roots / importers / readers, closure of "
             "arithmetic over the operand-type matrix (complex partners), Covobs / cov_Obs validation, ranges with non-positive step as idl."),
     "C05": ("symbolic execution of reweight / correlate / merge_obs / _reduce_deltas over enumerated chain layouts with symbolic data; counting argument by ghost induction",
             "Proof: _reduce_deltas gathers by configuration number (never by position) and raises ValueError iff a requested configuration is "
@@ -54,6 +61,14 @@ CLAIMED = {
             "DESIGN.md section 6 C05",
             "Chain layouts (1..3 replicas, two ensembles) are enumerated, lengths / configuration numbers / samples symbolic. NOT decided: covariance "
             "inputs (rejection), Corr.correlate, qtop_projection, inheritance of the flag through derived_observable (that is its result assembly)."),
+    "C13": ("symbolic execution of export_jackknife / import_jackknife (structured-matrix model of ones - (n-1) identity) + arithmetic lemmas",
+            "Proof: export_jackknife returns [value, (n value - x_i)/(n-1)] for every i and rejects observables with more than one chain; "
+            "import_jackknife returns a well-formed single-chain observable with value jacks[0], the given configuration list and samples "
+            "sum(jacks[1:]) - (n-1) jacks[1+j]; lemmas (z3, real arithmetic): these are the leave-one-out means and import(export) restores every "
+            "sample whenever n value equals the sum of the samples.",
+            "DESIGN.md section 6 C13",
+            "The invariant n*value == sum of samples of single-chain observables is a precondition of the lemmas, not re-proved here. NOT "
+            "decided: jackknife variance == squared S=0 error, export_bootstrap / import_bootstrap (bincount / lstsq)."),
     "C14": ("symbolic execution of the Corr methods with exact loop summaries + z3, contracts over all T and all undefined-slice patterns",
             "Proof (N = 1, real content). Each operator method (__add__, __sub__, __mul__, __truediv__, __neg__, __pow__, __abs__, reflected "
             "variants), each elementary function (log, exp, 12 functions through _apply_func_to_corr) and the index transformations reverse, "
